@@ -13,6 +13,7 @@ from ..model import AnalysisError, Program, norm_key, parent_of
 from ..report import Checker
 from . import fftlen
 from . import c03 as C03
+from ..resolve import Resolver, canon
 from .procmodel import ROW_BODIES, extract_body, RowExec, NS, EW, VT, taper, rfft_, combine
 
 EXPLANATION = (
@@ -72,6 +73,7 @@ TIME_DOMAIN = {"single_azimuth": "traditional_single_azimuth_hvsr_processing",
 
 
 def run(ck: Checker, prog: Program, tier: str):
+    _PROG[0] = prog
     ck.guard(_r1, ck, prog)
     ck.guard(_r1_projection, ck, prog)
     ck.guard(_r2, ck, prog)
@@ -79,6 +81,15 @@ def run(ck: Checker, prog: Program, tier: str):
         ck.guard(_body, ck, prog, q)
     ck.guard(_diffuse, ck, prog)
     ck.guard(_r7, ck, prog)
+    from .procmodel import taper_rule
+    ck.guard(taper_rule, ck, prog, "C01.R3")
+    # "every smoothing operator": the kernel rules of C02 are part of this property's pipeline
+    from . import c02
+    with ck.borrow(c02, "C01.R3+"):
+        for k in c02.LOOP_KERNELS:
+            ck.guard(c02._kernel, ck, prog, k)
+        ck.guard(c02._sg, ck, prog)
+        ck.guard(c02._registry, ck, prog)
 
 
 def _r1(ck: Checker, prog: Program):
@@ -173,52 +184,94 @@ def _r2(ck: Checker, prog: Program):
             ck.violation("C01.R2", fq, "dispatch", f"does not dispatch as {regname}[{key}](records, settings)", loc=f.loc())
 
 
-def _smoothing_call(ck: Checker, f, scope: List[ast.stmt], raw_name: str, dt_expr: str, what: str):
-    """smooth_spectra = SMOOTHING_OPERATORS[operator](fft_frq, <raw>, fcs, bandwidth) with the configured operator/bandwidth."""
-    q = f.qualname
-    calls = [c for st in scope for c in calls_in(st) if isinstance(c.func, ast.Subscript) and unparse(c.func.value) == "SMOOTHING_OPERATORS"]
-    if len(calls) != 1:
-        ck.violation(P + "R3", q, f"{what}: smoothing call", f"expected one SMOOTHING_OPERATORS[...] call, found {len(calls)}", loc=f.loc())
-        return None
-    c = calls[0]
-    args = [unparse(x) for x in c.args]
-    opk = unparse(c.func.slice)
-    rd = reaching(f)
+OPERATOR_PARAMS = ["frequencies", "spectrum", "fcs", "bandwidth"]
+FCS_SRC = "np.array(settings.smoothing['center_frequencies_in_hz'])"
 
-    class _Env:
-        """value text of the single definition of a name that reaches the smoothing call"""
-        def get(self, name, default=None):
-            if name is None:
-                return default
-            defs = rd.def_stmts(name, c)
-            if len(defs) != 1 or not isinstance(defs[0], ast.Assign):
-                return default
-            d = defs[0]
-            t = d.targets[0]
-            if isinstance(t, ast.Tuple) and isinstance(d.value, ast.Tuple):
-                for e, v in zip(t.elts, d.value.elts):
-                    if unparse(e) == name:
-                        return unparse(v)
-                return default
-            return unparse(d.value)
-    env = _Env()
-    good = len(args) == 4 and not c.keywords and args[1] == raw_name and args[2] == "fcs" \
-        and env.get(opk) == "settings.smoothing['operator']" and env.get(args[3]) == "settings.smoothing['bandwidth']"
-    frq = env.get(args[0]) if args else None
-    good_f = frq in (f"np.fft.rfftfreq(settings.fft_settings['n'], {dt_expr})", f"rfftfreq(settings.fft_settings['n'], {dt_expr})")
-    if good and good_f:
+
+def _parse(src: str) -> ast.AST:
+    return ast.parse(src, mode="eval").body
+
+
+def _smoothing_call(ck: Checker, f, scope: List[ast.stmt], raw_name: str, dt_expr: str, what: str, prog: Program = None):
+    """The smoothing call, resolved through temporaries: OPERATORS[settings.smoothing['operator']](rfftfreq(settings.fft_settings['n'], dt),
+    <raw>, fcs, settings.smoothing['bandwidth']).  Returns (call, bound arguments) or None."""
+    q = f.qualname
+    R = Resolver(prog or _PROG[0], f)
+    want_callee = R.value(_parse("SMOOTHING_OPERATORS[settings.smoothing['operator']]"), f.node.body[-1])
+    calls = []
+    for st in scope:
+        for c in calls_in(st):
+            if isinstance(c.func, (ast.Subscript, ast.Name)) and not (isinstance(c.func, ast.Name) and not reaching(f).defs_at(c.func.id, c)):
+                try:
+                    v = R.value(c.func, c)
+                except AnalysisError:
+                    continue
+                if v.has(sp.Symbol("SMOOTHING_OPERATORS", real=True)) or "SMOOTHING_OPERATORS" in str(v):
+                    calls.append((c, v))
+    if len(calls) != 1:
+        ck.violation(P + "R3", q, f"{what}: smoothing call", f"expected one call of a SMOOTHING_OPERATORS entry, found {len(calls)}", loc=f.loc())
+        return None
+    c, callee = calls[0]
+    from ..astutil import bind_call
+    b = bind_call(c, OPERATOR_PARAMS)
+    problems = []
+    if not equal(canon(callee), canon(want_callee)):
+        problems.append(f"operator is `{callee}`, not SMOOTHING_OPERATORS[settings.smoothing['operator']]")
+    wants = {"frequencies": f"np.fft.rfftfreq(settings.fft_settings['n'], {dt_expr})", "fcs": FCS_SRC, "bandwidth": "settings.smoothing['bandwidth']"}
+    for pn, src in wants.items():
+        a = b.get(pn)
+        if a is None:
+            problems.append(f"argument `{pn}` is not passed (the operator's own default would be used)")
+            continue
+        got, want = canon(R.value(a, c)), canon(R.value(_parse(src), c))
+        if not equal(got, want):
+            problems.append(f"{pn} = {str(got)[:120]}; expected {src}")
+    if b.get("spectrum") is None:
+        problems.append("no spectrum argument")
+    if not problems:
         ck.ok(P + "R3", q, norm_key(c, 110), detail=f"{what}: operator/bandwidth from settings; frequencies of the padded FFT at the group's time step; evaluated at fcs")
+        ck.ok(P + "R6", q, "smoothing evaluated at the configured centre frequencies", nontrivial=False)
     else:
-        ck.violation(P + "R3", q, norm_key(c, 110),
-                     f"{what}: the smoothing call is not OPERATORS[settings.smoothing['operator']](rfftfreq(settings.fft_settings['n'], {dt_expr}), {raw_name}, fcs, "
-                     f"settings.smoothing['bandwidth']) (args {args}; operator {env.get(opk)}; bandwidth {env.get(args[3]) if len(args) > 3 else None}; frequencies {frq})",
-                     loc=f.loc(c))
-    ck.ok(P + "R6", q, "smoothing evaluated at fcs", nontrivial=False) if len(args) > 2 and args[2] == "fcs" else \
-        ck.violation(P + "R6", q, "smoothing centre frequencies", f"the smoothing operator is evaluated at `{args[2] if len(args) > 2 else None}`, not at fcs", loc=f.loc(c))
-    return c
+        ck.violation(P + "R3", q, norm_key(c, 110), f"{what}: " + "; ".join(problems), loc=f.loc(c))
+    return c, b
+
+
+_PROG = [None]
+
+
+def _rotdpp(ck: Checker, prog: Program, q: str):
+    from .procmodel import rotdpp_roles
+    problems, facts, b = rotdpp_roles(prog)
+    f = b.func
+    for fct in facts:
+        ck.ok("C01.R3" if "row" in fct else "C01.R4", q, fct)
+    for pr in problems:
+        rule = "C01.R4" if ("percentile" in pr or "denominator" in pr or "numerator" in pr or "ratio" in pr) else "C01.R3"
+        ck.violation(rule, q, pr[:100], "RotDpp: " + pr, loc=f.loc(b.record_loop))
+    if not problems:
+        ck.ok("C01.R5", q, "rows have degree 1 in their component(s); percentile and smoothing preserve degree", nontrivial=False)
+    ex = RowExec(prog, b, sp.Symbol("azimuth", real=True))
+    ex.run([st for st in b.record_loop.body if st is not b.filter_if])
+    for st in ex.inplace_on_record:
+        ck.violation("C01.R3", q, norm_key(st), "the taper is applied to the caller's record instead of a copy: a record processed twice (or listed twice) "
+                     "is tapered twice and its curve is no longer the defined ratio", loc=f.loc(st))
+    _smoothing_call(ck, f, b.group_loop.body, "raw_spectra_per_record", b.dt_var, "per record", prog)
+    old = C03.P
+    C03.P = "C01.R4#"
+    try:
+        C03._body(ck, prog, q)
+    finally:
+        C03.P = old
+    R = Resolver(prog, f)
+    if b.ctor is not None and equal(canon(R.value(b.ctor.args[0], b.ctor)), canon(R.value(_parse(FCS_SRC), b.ctor))):
+        ck.ok("C01.R6", q, "result frequency = configured centre frequencies")
+    else:
+        ck.violation("C01.R6", q, "result frequency", "the result is not built on the configured centre frequencies", loc=f.loc())
 
 
 def _body(ck: Checker, prog: Program, q: str):
+    if q.endswith("rotdpp_hvsr_processing"):
+        return _rotdpp(ck, prog, q)
     b = extract_body(prog, q)
     f = b.func
     rotd = q.endswith("rotdpp_hvsr_processing")
@@ -232,7 +285,8 @@ def _body(ck: Checker, prog: Program, q: str):
     for st in ex.inplace_on_record:
         ck.violation("C01.R3", q, norm_key(st), "the taper is applied to the caller's record instead of a copy: a record processed twice (or listed twice) "
                      "is tapered twice and its curve is no longer the defined ratio", loc=f.loc(st))
-    proj = sp.Function("proj")
+    def proj(n_, e_, az_):
+        return n_ * sp.cos(az_ * sp.pi / 180) + e_ * sp.sin(az_ * sp.pi / 180)
     if rotd:
         want = {"raw_spectra_per_record[-1]": sp.Abs(rfft_(taper(VT))), "raw_spectra_per_record[idx]": sp.Abs(rfft_(taper(proj(NS, EW, az))))}
         got = {}
@@ -266,16 +320,9 @@ def _body(ck: Checker, prog: Program, q: str):
                          f"the {role} row receives {g}; the definition requires {w} "
                          f"(copy, {'project, ' if role == 'horizontal' and (rotd or single) else ''}taper, rfft with the padded length, magnitude"
                          f"{', combine' if role == 'horizontal' and not (rotd or single) else ''})", loc=f.loc(b.record_loop))
-    # combine method comes from the register with the configured key
-    if not (rotd or single):
-        m = [st for st in b.record_loop.body if isinstance(st, ast.Assign) and unparse(st.targets[0]) == "method"]
-        if len(m) == 1 and unparse(m[0].value) == "COMBINE_HORIZONTAL_REGISTER[settings.method_to_combine_horizontals]":
-            ck.ok("C01.R3", q, norm_key(m[0]))
-        else:
-            ck.violation("C01.R3", q, "combine method", "the combine function is not COMBINE_HORIZONTAL_REGISTER[settings.method_to_combine_horizontals]", loc=f.loc(b.record_loop))
     # smoothing + ratio
     if rotd:
-        _smoothing_call(ck, f, b.group_loop.body, "raw_spectra_per_record", b.dt_var, "per record")
+        _smoothing_call(ck, f, b.group_loop.body, "raw_spectra_per_record", b.dt_var, "per record", prog)
         # percentile/ratio roles are C04.R5; repeat the role part here
         pc = calls_in(b.record_loop, "percentile")
         ratio = [st for st in b.record_loop.body if isinstance(st, ast.Assign) and unparse(st.targets[0]) == "hvsr_spectra[hvsr_idx]"]
@@ -288,7 +335,7 @@ def _body(ck: Checker, prog: Program, q: str):
         else:
             ck.violation("C01.R4", q, "RotDpp ratio", "the curve is not percentile(smoothed azimuth rows, axis 0) / smoothed vertical row", loc=f.loc(b.record_loop))
     else:
-        _smoothing_call(ck, f, [st for st in b.group_loop.body if st is not b.record_loop], "raw_spectra", b.dt_var, "per group")
+        _smoothing_call(ck, f, [st for st in b.group_loop.body if st is not b.record_loop], "raw_spectra", b.dt_var, "per group", prog)
     # bookkeeping of rows (C03.R1) under this property's ids
     old = C03.P
     C03.P = "C01.R4#"
@@ -297,52 +344,50 @@ def _body(ck: Checker, prog: Program, q: str):
     finally:
         C03.P = old
     # result
-    if b.ctor is not None and unparse(b.ctor.args[0]) == "fcs":
-        d = [st for st in f.node.body if isinstance(st, ast.Assign) and unparse(st.targets[0]) == "fcs"]
-        if len(d) == 1 and unparse(d[0].value) == "np.array(settings.smoothing['center_frequencies_in_hz'])":
-            ck.ok("C01.R6", q, "result frequency = fcs = configured centre frequencies")
-        else:
-            ck.violation("C01.R6", q, "fcs", "fcs is not the configured centre frequencies", loc=f.loc())
+    R = Resolver(prog, f)
+    if b.ctor is not None and equal(canon(R.value(b.ctor.args[0], b.ctor)), canon(R.value(_parse(FCS_SRC), b.ctor))):
+        ck.ok("C01.R6", q, "result frequency = configured centre frequencies")
     else:
-        ck.violation("C01.R6", q, "result frequency", "the result is not built on fcs", loc=f.loc())
+        ck.violation("C01.R6", q, "result frequency", "the result is not built on the configured centre frequencies", loc=f.loc())
 
 
 def _diffuse(ck: Checker, prog: Program):
     f = prog.func("processing.diffuse_field_hvsr_processing")
     q = f.qualname
-    env = {}
-    for st in f.node.body:
-        if isinstance(st, ast.Assign) and isinstance(st.targets[0], ast.Name):
-            env[st.targets[0].id] = st
-    comp = {}
-    for nm in ("psd_ns", "psd_ew", "psd_vt"):
-        st = env.get(nm)
-        want = f"_rpds_single_component([record.{nm[-2:]} for record in records], settings)"
-        if st is not None and unparse(st.value) == want:
-            ck.ok(P + "R4", q, f"{nm} from component {nm[-2:]}")
-        else:
-            ck.violation(P + "R4", q, nm, f"`{nm}` is computed as `{unparse(st.value) if st is not None else None}`; expected {want}", loc=f.loc())
-    sp_st = env.get("spectra")
-    if sp_st is not None and unparse(sp_st.value) in ("np.array([psd_ns + psd_ew, psd_vt])", "np.array([psd_ew + psd_ns, psd_vt])"):
-        ck.ok(P + "R4", q, norm_key(sp_st), detail="row 0 = Pns + Pew, row 1 = Pvt")
-    else:
-        ck.violation(P + "R4", q, "diffuse-field rows", f"rows are `{unparse(sp_st.value) if sp_st is not None else None}`; expected [Pns + Pew, Pvt]", loc=f.loc())
-    _smoothing_call(ck, f, f.node.body, "spectra", "records[0].vt.dt_in_seconds", "diffuse field")
     rets = [r for r in own_nodes(f.node) if isinstance(r, ast.Return)]
-    good = False
-    if len(rets) == 1 and isinstance(rets[0].value, ast.Call) and call_name(rets[0].value) == "HvsrDiffuseField":
-        c = rets[0].value
-        T = Translator()
-        hor, ver = env.get("hor"), env.get("ver")
-        if hor is not None and ver is not None and unparse(hor.value) == "smooth_spectra[0]" and unparse(ver.value) == "smooth_spectra[1]":
-            T.env["hor"], T.env["ver"] = sp.Symbol("H", positive=True), sp.Symbol("V", positive=True)
-            got = T.tr(c.args[1])
-            good = equal(got, sp.sqrt(T.env["hor"] / T.env["ver"])) and unparse(c.args[0]) == "fcs"
-    if good:
-        ck.ok(P + "R4", q, norm_key(rets[0], 110), detail="sqrt(smoothed (Pns+Pew) / smoothed Pvt) at fcs")
+    if len(rets) != 1 or not (isinstance(rets[0].value, ast.Call) and call_name(rets[0].value) == "HvsrDiffuseField"):
+        raise AnalysisError(f"{q}: `return HvsrDiffuseField(...)` not found")
+    ret = rets[0]
+    c = ret.value
+    from ..astutil import bind_call
+    b = bind_call(c, ["frequency", "amplitude", "meta"])
+    R = Resolver(prog, f)
+    psd = "_rpds_single_component([record.{c} for record in records], settings)"
+    smooth = ("SMOOTHING_OPERATORS[settings.smoothing['operator']](np.fft.rfftfreq(settings.fft_settings['n'], records[0].vt.dt_in_seconds), "
+              f"np.array([{psd.format(c='ns')} + {psd.format(c='ew')}, {psd.format(c='vt')}]), {FCS_SRC}, settings.smoothing['bandwidth'])")
+    want = canon(R.value(_parse(f"np.sqrt({smooth}[0] / {smooth}[1])"), ret))
+    got = canon(R.value(b["amplitude"], ret)) if "amplitude" in b else None
+    if got is not None and equal(got, want):
+        ck.ok(P + "R4", q, norm_key(ret, 110), detail="sqrt(smooth(Pns + Pew) / smooth(Pvt)); component k from record.k of the retained records")
         ck.ok(P + "R5", q, "power ratio under sqrt: degree (+1, -1) in amplitude", nontrivial=False)
+        ck.ok(P + "R3", q, "smoothing: configured operator, bandwidth, padded-FFT frequencies, fcs", nontrivial=False)
     else:
-        ck.violation(P + "R4", q, "diffuse-field ratio", "the curve is not sqrt(smooth_spectra[0] / smooth_spectra[1]) at fcs", loc=f.loc())
+        # locate the discrepancy for the message
+        detail = []
+        sc = _smoothing_call(ck, f, f.node.body, "spectra", "records[0].vt.dt_in_seconds", "diffuse field", prog)
+        if sc is not None and sc[1].get("spectrum") is not None:
+            rows = canon(R.value(sc[1]["spectrum"], sc[0]))
+            wrows = canon(R.value(_parse(f"np.array([{psd.format(c='ns')} + {psd.format(c='ew')}, {psd.format(c='vt')}])"), sc[0]))
+            if not equal(rows, wrows):
+                detail.append(f"rows handed to the smoothing operator are {str(rows)[:200]}; expected [Pns + Pew, Pvt]")
+        ck.violation(P + "R4", q, "diffuse-field ratio",
+                     "the curve is not sqrt(smoothed(Pns + Pew) / smoothed(Pvt)) of the retained records at the configured centre frequencies"
+                     + ("; " + "; ".join(detail) if detail else f" (found {str(got)[:160]})"), loc=f.loc(ret))
+    fr = b.get("frequency")
+    if fr is not None and equal(canon(R.value(fr, ret)), canon(R.value(_parse(FCS_SRC), ret))):
+        ck.ok(P + "R6", q, "result frequency = configured centre frequencies")
+    else:
+        ck.violation(P + "R6", q, "result frequency", "the result's frequency vector is not the configured centre frequencies", loc=f.loc(ret))
 
 
 def _r7(ck: Checker, prog: Program):
